@@ -706,7 +706,7 @@ pub fn run(ctx: &Ctx) -> Report {
     };
     par_run(ctx, n, |i, rep| {
         // the T-digest carries debug assertions stricter than its contract (DESIGN 2.3): skip it in mondbg
-        if ctx.is_dbg() && (5..=8).contains(&((i / 2) % N_FAM)) {
+        if ctx.profile == "mondbg" && (5..=8).contains(&((i / 2) % N_FAM)) {
             return;
         }
         if i % 2 == 0 {
